@@ -424,7 +424,8 @@ async fn late_ops_async(n: usize, how: u8, render: bool) -> RunOutput {
                         w.sim.link.lock().linger_after_close[0] = true;
                         raw.send_msg(Message::Close);
                     }
-                    _ => raw.send_bytes(&[0x7f, 0, 0, 0, 1]),
+                    // (an unassigned operation code: the last one, or the first one right behind the assigned range)
+                    _ => raw.send_bytes(&[if n % 2 == 1 { 0x7f } else { 0x77 }, 0, 0, 0, 1]),
                 }
                 // ... the application drops every stream it holds, at once ...
                 let idx: Vec<usize> = w.sim.tasks.iter().enumerate().filter(|(_, t)| t.name.starts_with('s') && !t.done).map(|(i, _)| i).collect();
